@@ -35,6 +35,7 @@ type Engine struct {
 	cur       *vctx
 	loadErrs  []string
 	constGlobals map[*ssa.Global]*Val
+	overlay      map[string][]byte
 }
 
 // vctx: everything produced while verifying one function
@@ -87,7 +88,7 @@ func loadEngine(repo string, patterns []string, overlay map[string][]byte) (*Eng
 	}
 	e := &Engine{pkgs: map[string]*packages.Package{}, spkg: map[string]*ssa.Package{}, layouts: map[string][]Leaf{},
 		funcSpecs: map[*ssa.Function]*FuncSpec{}, specByKey: map[string]*FuncSpec{}, externs: map[string]*ExternSpec{},
-		specFuncs: map[string]*SpecFunc{}, typeTags: map[string]int{}, srcCache: map[string][]byte{}}
+		specFuncs: map[string]*SpecFunc{}, typeTags: map[string]int{}, srcCache: map[string][]byte{}, overlay: overlay}
 	packages.Visit(pkgs, nil, func(p *packages.Package) {
 		e.pkgs[p.PkgPath] = p
 		if strings.HasPrefix(p.PkgPath, modPath) {
@@ -307,6 +308,10 @@ func (e *Engine) specOf(fn *ssa.Function) *FuncSpec {
 func (e *Engine) src(file string) []byte {
 	if b, ok := e.srcCache[file]; ok {
 		return b
+	}
+	if ob, ok := e.overlay[file]; ok {
+		e.srcCache[file] = ob
+		return ob
 	}
 	b, _ := os.ReadFile(file)
 	e.srcCache[file] = b
